@@ -53,6 +53,11 @@ def lead_exponent(
     out = numpy.zeros(poly_.shape + (len(poly_.names),), dtype=int)
     if not poly_.size:
         return out
-    for idx in numpoly.glexsort(poly_.exponents.T, graded=graded, reverse=reverse):
+    # the monomial order refers to the indeterminates in index order, whatever order the names are stored in
+    (ordered,) = numpoly.align_indeterminants(poly_)
+    columns = [poly_.names.index(name) for name in ordered.names]
+    for idx in numpoly.glexsort(
+        poly_.exponents.T[columns], graded=graded, reverse=reverse
+    ):
         out[poly_.coefficients[idx] != 0] = poly_.exponents[idx]
     return out.reshape(shape + (len(poly_.names),))
